@@ -564,13 +564,22 @@ pub fn run(ctx: &Ctx, rep: &mut Report) {
                 let mut dead = false;
                 // C17: true while the value has been built by FlexVec pushes only (no spare room inside sealed items)
                 let mut pushes_only = true;
+                let mut prev = None;
                 for step in 0..steps {
                     if dead {
                         break;
                     }
+                    if step > 0 && ctx.case_over() {
+                        // interpreter runs only: the history ends here (a shorter history is still a history)
+                        counters.push("history-ended-by-case-time-budget".into());
+                        break;
+                    }
                     // ---- observe the state before the step through the reference parser
                     let bytes_b: Vec<u8> = root.as_dyn().bytes().to_vec();
-                    let dec_b = match decode(d, &bytes_b, true) {
+                    // the state after the previous step was parsed already and nothing ran in between (the bytes are not
+                    // compared: padding may be uninitialised, which the interpreters rightly refuse to read)
+                    let reuse = prev.take();
+                    let dec_b = match reuse.map(Ok).unwrap_or_else(|| decode(d, &bytes_b, true)) {
                         Ok(x) => x,
                         Err(e) => {
                             viol.push((format!("{}|state-not-decodable|{}", prop, kind_path(d)), format!("after {:?}: reference parser rejects the value's bytes: {:?}", hist.borrow().last(), e)));
@@ -938,8 +947,9 @@ pub fn run(ctx: &Ctx, rep: &mut Report) {
                             }
                         }
                     }
-                    keys.push(mix(hash_str(vt.name) ^ mix(hash_str(&format!("{:?}", model))) ^ mix(hash_str(op.name())).rotate_left(5)));
+                    keys.push(mix(hash_str(vt.name) ^ mix(model.hash64()) ^ mix(hash_str(op.name())).rotate_left(5)));
                     let _ = addr;
+                    prev = Some(dec_a);
                 }
             })
         });
